@@ -783,7 +783,7 @@ Proof.
   apply (aff_step g E' base u l IH Hu). apply HE; assumption.
 Qed.
 
-Lemma affected_base_mono g E (base base' : label -> Prop) x :
+Lemma affected_base_mono g (E : target -> label -> Prop) (base base' : label -> Prop) x :
   (forall l, base l -> base' l) -> affected g E base x -> affected g E base' x.
 Proof.
   intros Hb Ha. induction Ha as [l Hl | u l _ IH Hu He]; [apply aff_base, Hb, Hl|].
@@ -813,7 +813,7 @@ Definition diff_claim (E : graph -> bool -> target -> label -> Prop) : Prop :=
     exists rep, diff_changes cfg before after files level incsub = Some rep
                 /\ complete after incsub level (E after incsub) (base_diff cfg before after files) rep.
 
-Lemma changes_complete E g files level incsub :
+Lemma changes_complete (E : target -> label -> Prop) g files level incsub :
   (forall u l, In u (g_targets g) -> E u l -> code_dep g incsub u l) ->
   exists rep, changes g files level incsub = Some rep /\ complete g incsub level E (base_files g files) rep.
 Proof.
@@ -826,7 +826,7 @@ Proof.
     intros l Hl. right. exact Hl.
 Qed.
 
-Lemma diff_complete E cfg before after files level incsub :
+Lemma diff_complete (E : target -> label -> Prop) cfg before after files level incsub :
   (forall u l, In u (g_targets after) -> E u l -> code_dep after incsub u l) ->
   exists rep, diff_changes cfg before after files level incsub = Some rep
               /\ complete after incsub level E (base_diff cfg before after files) rep.
